@@ -3,11 +3,13 @@ C18 - n0xml keeps document order and its searches return only real nodes.
 
 Lean: lean/N0Verif/Model/NXml.lean, Proofs/NXml.lean, Proofs/NXmlStr.lean, Props/C18.lean
 B streams: nxml.parse, nxml.get, nxml.getl, nxml.getattr, nxml.getattrl, nxml.findall (str / list, find_first on / off),
-           nxml.findfirst, nxml.in, nxml.step (vs re.match with the regex taken from the source),
+           nxml.findfirst, nxml.in, nxml.step (vs the step regex AND the re function - match / fullmatch - taken from the source),
            nxml.int (vs int()), nxml.dec (vs str()), nxml.norm, nxml.findall/grammar (rendered grammar expressions)
 C evaluators (the statement on the real code, ElementTree as the oracle):
            parse_preserves, get_positional, get_attrib_positional, findall_resolves, conditions_exact,
-           deep_wildcard, findfirst, in_iff, parse_render (string form == list form, regex groups == tokens)
+           deep_wildcard, findfirst, in_iff, parse_render (string form == list form, regex groups == tokens),
+           paths_fresh (returned path lists are the caller's: changing them changes no later search on any document)
+Tags of documents and expressions include XML names with '-', '.', a non-ASCII letter and prefix pairs (item / item-id).
 """
 import ast
 import os
@@ -23,8 +25,13 @@ MANIFEST = dict(
     technique="Lean 4 theorems over a hand-written model of n0xml (input: the element tree ElementTree reports) + "
               "differential correspondence with the implementation + the statement run on the implementation against ElementTree",
     text="Partial by nature: xml.etree.ElementTree (expat) is trusted; the model starts from the element tree it reports "
-         "(tag, text, attrib, children). Proved in Lean for the code with fixes C18-a/b/c/d applied, unbounded in document "
-         "size/depth and expression length: C18_parse_preserves (the parsed structure lists, in document order, exactly the "
+         "(tag, text, attrib, children). Proved in Lean for the code with fixes C18-a/b/c/d/e applied (e: the step regex is "
+         "applied with re.fullmatch and its tag class is an XML name \\w[\\w.\\-]*, so 'item-id' no longer reads as 'item' and a "
+         "step with anything left over raises ValueError; f: path lists are fresh per call - object identity, harness only), "
+         "unbounded in document size/depth and expression length: "
+         "C18_step_whole (whatever the step parser accepts it has consumed: the step is its tag followed by what the index / "
+         "condition groups read, a step without index and condition IS its tag); C18_name_step (findall([t]) for a name t "
+         "of word characters, '.', '-' returns exactly the siblings whose tag EQUALS t); C18_parse_preserves (the parsed structure lists, in document order, exactly the "
          "elements below the root with depth, tag, attributes and the text of every childless element); C18_get_positional "
          "(+_str: list-form and string-form get with explicit per-tag indexes 't1[k1]/.../tn[kn]' returns the stored value of "
          "the element at that position, the default when there is none; tags without '/' and '[', non-empty for the string); "
@@ -43,12 +50,12 @@ MANIFEST = dict(
          "C18-d (findall dropped the matches of '**' dives when a later sibling resolved a '..' at the same level; without the "
          "fix findfirst differs from findall[0] exactly for a filtered '**' step directly followed by '..' whose tail collapses, "
          "206 such expressions found by exhaustive search, none after the fix). C18_parse_render / C18_parseStep_render / "
-         "C18_findall_rendered: for expressions of the property's grammar (tokens '..' or tag[idx][text() op v], tag a name, "
+         "C18_findall_rendered: for expressions of the property's grammar (tokens '..' or tag[idx][text() op v], tag a name (a word character then word characters, '.', '-'; ASCII and U+00C0-U+024F), "
          "'*' or '**', idx absent/[*]/[i], op = or !=, value non-empty without quotes and '/') whose text contains no '**/**' "
          "(C18_parse_render_noDD: structurally, no plain '**' token directly followed by a '**...' token), "
          "the '**/**' loop + path split + '..' test + step parser (which stands for the regex) return exactly the tokens, so "
          "findall(string) is findall(list of rendered steps). The step regex is replaced by a hand-written parser validated "
-         "against re.match (regex read from the source, also on every rendered grammar step); the '**/**' collapse itself, "
+         "against the regex and the re function (fullmatch) read from the source, also on every rendered grammar step; the '**/**' collapse itself, "
          "quoted/==/<> condition spellings, int()/str() and non-grammar strings are covered by correspondence streams only; "
          "all nine statements are executed on the real code with ElementTree as the oracle.",
     note="see notes/C18.md for the exact list of proved theorems and what stays differential only",
@@ -1170,9 +1177,10 @@ def run(ctx):
                                  "simple_fragment_cases": sum(1 for c in scases + fcases if parse_simple(c["xp"]) is not None)}
     ctx.extra["assumptions"] = [
         "xml.etree.ElementTree (expat) is trusted: the model and the oracles start from the element tree it reports",
-        "expressions are ASCII (the model answers `unsupported` otherwise: regex classes \\d/.lower()/int() are modelled for ASCII)",
-        "the model follows n0struct_xml.py with fixes C18-a (`in`), C18-b (`**` on an empty document), C18-c (get below a leaf) and C18-d (findall keeps dive matches before a '..' resolved at the same level) applied",
+        "expressions are ASCII plus the Latin letters U+00C0-U+024F without U+00D7/U+00F7 (the model answers `unsupported` otherwise: \\w, \\d, .lower(), int() are modelled for these only; every such letter matches \\w, none \\d, and lower() keeps it non-ASCII - checked against Python for the whole range)",
+        "XML names with combining marks, U+00B7 or other scripts are outside the model's scope; with \\w[\\w.\\-]* the code refuses (ValueError) names containing characters that are neither \\w, '.', '-' - loudly, no longer by matching a prefix",
+        "the model follows n0struct_xml.py with fixes C18-a (`in`), C18-b (`**` on an empty document), C18-c (get below a leaf), C18-d (findall keeps dive matches before a '..' resolved at the same level), C18-e (the whole step is read: re.fullmatch, tag = XML name) and C18-f (root_xpath default None, caller's list copied) applied",
         "get_attrib with an empty path raises RuntimeError on the real code; the model answers `unsupported` there (PyErr has no RuntimeError)",
         "text of elements that have children and tail text are dropped by n0xml; the property speaks about tags, attributes, leaf texts, order",
     ]
-    ctx.extra["trusted_base"] = ["xml.etree.ElementTree / expat (produces the input tree)", "re.match only as the reference of stream nxml.step (the model uses a hand-written step parser)"]
+    ctx.extra["trusted_base"] = ["xml.etree.ElementTree / expat (produces the input tree)", "re.fullmatch only as the reference of stream nxml.step (the model uses a hand-written step parser)"]
